@@ -24,7 +24,6 @@ DEFAULT_CHECKS = [
     "--bounds-check", "--pointer-check", "--pointer-overflow-check",
     "--pointer-primitive-check", "--div-by-zero-check",
     "--signed-overflow-check", "--undefined-shift-check",
-    "--conversion-check",
 ]
 MEM_LIMIT = int(os.environ.get("VP_MEM_GB", "12")) * (1 << 30)
 
@@ -54,17 +53,25 @@ def _limits():
 
 def run(cmd, timeout, log):
     t0 = time.time()
+    p = subprocess.Popen(cmd, stdout=subprocess.PIPE, stderr=subprocess.PIPE, preexec_fn=_limits)
     try:
-        p = subprocess.run(cmd, stdout=subprocess.PIPE, stderr=subprocess.PIPE,
-                           timeout=timeout, preexec_fn=_limits)
-        out, err, rc = p.stdout.decode(errors="replace"), p.stderr.decode(errors="replace"), p.returncode
-    except subprocess.TimeoutExpired as e:
-        out = (e.stdout or b"").decode(errors="replace")
-        err = (e.stderr or b"").decode(errors="replace") + "\nVP-TIMEOUT after %ss" % timeout
+        o, e = p.communicate(timeout=timeout)
+        out, err, rc = o.decode(errors="replace"), e.decode(errors="replace"), p.returncode
+    except subprocess.TimeoutExpired:
+        try:
+            os.killpg(p.pid, 9)   # _limits() made the child a session/group leader
+        except Exception:
+            p.kill()
+        o, e = p.communicate()
+        out = (o or b"").decode(errors="replace")
+        err = (e or b"").decode(errors="replace") + "\nVP-TIMEOUT after %ss" % timeout
         rc = -9
-        subprocess.run(["pkill", "-9", "-f", cmd[-1]], stderr=subprocess.DEVNULL)
     dt = time.time() - t0
-    log.append({"cmd": " ".join(cmd), "rc": rc, "secs": round(dt, 2)})
+    cs = " ".join(cmd)
+    if cs.count("--property") > 3:
+        i = cs.index("--property")
+        cs = cs[:i] + "--property <%d names: all except excluded classes> " % cs.count("--property") + " ".join(c for c in cmd[-3:] if not c.startswith("--property") and "." not in c)
+    log.append({"cmd": cs, "rc": rc, "secs": round(dt, 2)})
     return rc, out, err, dt
 
 
@@ -76,6 +83,9 @@ class Scratch:
         self.weave_info = {}
 
     def cleanup(self):
+        if os.environ.get("VP_KEEP"):
+            print("scratch kept:", self.dir)
+            return
         shutil.rmtree(self.dir, ignore_errors=True)
 
 
@@ -199,6 +209,31 @@ def run_unit(spec, unit, scratch, tier="quick", trace=False):
     elif solver in ("z3", "cvc5"):
         cmd += ["--" + solver]
     res["solver"] = solver
+    excl = spec.get("excluded_checks", []) + unit.get("excluded_checks", [])
+    if excl:
+        # A failed pointer-relation check is "fatal" in CBMC 6: every later
+        # property is reported UNKNOWN.  Excluded check classes are therefore
+        # removed from the property set (by name) instead of being ignored
+        # after the fact.
+        lcmd = [c for c in cmd if c != "--json-ui"] + ["--show-properties", "--json-ui"]
+        rc, out, err, _ = run(lcmd, 300, log)
+        try:
+            plist = []
+            for item in json.loads(out):
+                if isinstance(item, dict) and "properties" in item:
+                    plist = item["properties"]
+        except Exception:
+            plist = []
+        if not plist:
+            res["reason"] = "could not list properties for exclusion filter: " + (err + out)[-500:]
+            return res
+        keep = [pp["name"] for pp in plist
+                if not any(x["match"] in (pp["name"] + " " + pp.get("description", "")) for x in excl)]
+        res["excluded"] = len(plist) - len(keep)
+        res["excluded_classes"] = [x["match"] for x in excl]
+        pf = base + ".props"
+        for n in keep:
+            cmd += ["--property", n]
     if trace:
         cmd += ["--trace"]
     tmo = unit.get("timeout_thorough" if tier == "thorough" and "timeout_thorough" in unit else "timeout", 600)
@@ -207,6 +242,9 @@ def run_unit(spec, unit, scratch, tier="quick", trace=False):
     res["solver_secs"] = round(dt, 2)
     if rc == -9:
         res["reason"] = "timeout after %ss (undecided)" % tmo
+        return res
+    if rc not in (0, 10):
+        res["reason"] = "cbmc exited with rc=%s (out of memory / tool error; undecided): %s" % (rc, (err + out)[-600:].replace("\n", " "))
         return res
     try:
         doc = json.loads(out)
@@ -230,7 +268,7 @@ def run_unit(spec, unit, scratch, tier="quick", trace=False):
         return res
     if trace:
         res["raw_results"] = results
-    failed, unwind_fail = [], []
+    failed, unwind_fail, unknown = [], [], []
     nob = nok = 0
     canary = None
     names = []
@@ -252,6 +290,8 @@ def run_unit(spec, unit, scratch, tier="quick", trace=False):
                    "function": loc.get("function", "")}
             if "unwinding assertion" in desc or ".unwind." in name or "recursion" in desc:
                 unwind_fail.append(ent)
+            elif st != "FAILURE":
+                unknown.append(ent)
             else:
                 failed.append(ent)
     res["obligations"], res["discharged"], res["canary"] = nob, nok, canary
@@ -277,6 +317,9 @@ def run_unit(spec, unit, scratch, tier="quick", trace=False):
     if failed:
         res["status"] = "violated"
         res["reason"] = "; ".join("%s (%s)" % (f["obligation"], f["description"][:80]) for f in failed[:4])
+        return res
+    if unknown:
+        res["reason"] = "%d obligations reported %s by cbmc (undecided): %s" % (len(unknown), unknown[0]["status"], unknown[0]["obligation"])
         return res
     if unwind_fail:
         res["reason"] = "unwinding assertion failed (bound too small; undecided): " + unwind_fail[0]["obligation"]
@@ -334,7 +377,12 @@ if __name__ == "__main__":
     pairs = units_for(mods, a.prop, a.module, a.unit, a.tier)
     rs = run_units(pairs, a.tier)
     bad = 0
+    seen_reason = set()
     for r in rs:
+        if r["reason"].startswith("goto-cc failed"):
+            if r["reason"] in seen_reason:
+                r["reason"] = "goto-cc failed (same as above)"
+            seen_reason.add(r["reason"])
         print("%-10s %-28s %-9s grade=%s obl=%d ok=%d canary=%s %.1fs %s" % (
             r["module"], r["unit"], r["status"], r["grade"], r["obligations"],
             r["discharged"], r["canary"], r["secs"], r["reason"][:3000 if a.v else 300]))
